@@ -585,6 +585,10 @@ def r6_restore_mount(ctx, F):
     w_, _v = c07.index_writes(F, b)
     mw_ = [x for x in w_ if x[0] == "mount_id_mappings"]
     ctx.check(rule, "keeps-restored-mapping", not mw_, "restore_mount overwrites mount_id_mappings[%s], the mapping restored from the snapshot" % (mw_[0][1] if mw_ else ""), loc=(mw_[0][3].loc() if mw_ else b.loc()))
+    im_b = F.method(VFS, "insert_mount_locked")
+    w2_, _v2 = c07.index_writes(F, im_b)
+    cl_ = [x for x in w2_ if x[0] == "mount_id_mappings" and x[1] == "fs_idx"]
+    ctx.check(rule, "insert-keeps-restored-mapping", not cl_, "insert_mount_locked (used by restore_mount) writes mount_id_mappings[fs_idx], the mapping restored from the snapshot", loc=(cl_[0][3].loc() if cl_ else im_b.loc()))
     g = [c for c in live_calls(b) if c.name == "mount" and c.trait]
     ctx.check(rule, "ino-limit", any("VFS_MAX_INO" in R(x, b, v) for c in live_calls(b) for (x, l, u) in v.guards(c.bb)), "restore_mount no longer rejects backends whose inode numbers do not fit", loc=b.loc())
 
